@@ -20,8 +20,8 @@ from vf.engine import Ctx, Property
 finite = gen.finite
 
 CLASSES = {1: ["SphericalDroplet", "DiffuseDroplet"], 2: ["SphericalDroplet", "DiffuseDroplet", "PerturbedDroplet2D"], 3: ["SphericalDroplet", "DiffuseDroplet"]}
-_coord = st.one_of(st.integers(-4, 4).map(float), st.floats(-10, 10, **finite).map(gen.r6))
-_radius = st.one_of(st.sampled_from([0.0, 0.5, 1.0, 1.0, 2.0]), st.floats(0, 5, **finite).map(gen.r6))
+_coord = st.one_of(st.integers(-4, 4).map(float), st.floats(-10, 10, **finite).map(lambda x: float(round(x, 3))))
+_radius = st.one_of(st.sampled_from([0.0, 0.5, 1.0, 1.0, 2.0]), st.floats(0.01, 5, **finite).map(gen.r6))
 _width = st.sampled_from([None, 0.0, 0.25, 1.0])
 _idx = st.integers(0, 1000)
 _time = st.one_of(st.integers(-5, 20), st.floats(-5, 20, **finite).map(gen.r6))
@@ -180,7 +180,7 @@ class C20(Property):
     )
     assumptions = [
         "for append(copy=False) only content equality is asserted (aliasing is unspecified); such droplets are never mutated afterwards",
-        "remove_overlapping inside a history is checked to leave a sub-sequence of the previous content (details are C10's job), then the model adopts the result",
+        "remove_overlapping inside a history is modelled by its post-conditions (sub-sequence, separation, justified removals, strictly largest survives - ties make the exact survivor set ambiguous), then the model adopts the result",
         "summary queries are compared with their definitions over the model to rtol 1e-12; 3-D perturbed classes are left out (their volume needs adaptive quadrature)",
     ]
 
@@ -296,6 +296,32 @@ class C20(Property):
                 it = iter(before)
                 if not all(any(a == b for b in it) for a in after):
                     fail("remove_overlapping:not-a-subsequence", "remove_overlapping changed or reordered droplets")
+                    return
+                # list-model post-conditions (Euclidean metric): separation, justification, largest survives
+                recs_b = [dec(e) for e in before]
+                P = [np.atleast_1d(r["position"]).astype(float) for r in recs_b]
+                Rr = [float(r["radius"]) for r in recs_b]
+                if len({len(p) for p in P}) <= 1:
+                    keep, j0 = [], 0
+                    for a in after:
+                        while before[j0] != a:
+                            j0 += 1
+                        keep.append(j0)
+                        j0 += 1
+                    md = op["md"]
+                    sl = 1e-9 * (1 + max([abs(x) for p in P for x in p] + Rr + [0.0]))
+                    surf = lambda i, j: float(np.linalg.norm(P[i] - P[j])) - Rr[i] - Rr[j]
+                    for a_ in range(len(keep)):
+                        for b_ in range(a_ + 1, len(keep)):
+                            if surf(keep[a_], keep[b_]) < md - sl:
+                                fail("remove_overlapping:still-too-close", f"survivors {keep[a_]},{keep[b_]} closer than {md}")
+                    for k in range(len(before)):
+                        if k not in keep and not any(j != k and Rr[j] >= Rr[k] and surf(k, j) < md + sl for j in range(len(before))):
+                            fail("remove_overlapping:unjustified", f"droplet {k} (r={Rr[k]}) removed although no at-least-as-large droplet is closer than {md}")
+                    if before:
+                        kmax = int(np.argmax(Rr))
+                        if all(Rr[kmax] > Rr[j] for j in range(len(Rr)) if j != kmax) and kmax not in keep:
+                            fail("remove_overlapping:largest-removed", f"strictly largest droplet {kmax} was removed")
                 M[:] = after
             elif name == "linked_write":
                 classes = {e[0] for e in M}
@@ -417,7 +443,7 @@ class C20(Property):
         def close(a, b):
             if isinstance(a, float) and math.isnan(a):
                 return isinstance(b, float) and math.isnan(b) or (np.ndim(b) == 0 and np.isnan(b))
-            return abs(a - b) <= 1e-12 * max(abs(a), abs(b), 1e-300)
+            return abs(a - b) <= 1e-12 * max(abs(a), abs(b)) + 1e-290
 
         for incl in (True, False):
             st_ = E.get_size_statistics(incl_vanished=incl)
@@ -430,7 +456,12 @@ class C20(Property):
                 exp = {"count": int(sel.sum()), "radius_mean": float(radii[sel].mean()), "radius_std": float(radii[sel].std()), "volume_mean": float(vols[sel].mean()), "volume_std": float(vols[sel].std())}
             for k, v in exp.items():
                 got = st_.get(k)
-                ok = got == v if k == "count" else close(float(v), float(got))
+                if k.endswith("_std") and not math.isnan(v):
+                    # a standard deviation suffers cancellation: compare relative to the magnitude of the data
+                    mag = float(np.abs(radii[sel] if k.startswith("radius") else vols[sel]).max())
+                    ok = abs(float(got) - v) <= 1e-9 * mag + 1e-290
+                else:
+                    ok = got == v if k == "count" else close(float(v), float(got))
                 if not ok:
                     fail(f"size-statistics:{k}", f"incl_vanished={incl}: {k}={got} expected {v}")
         tv = E.total_droplet_volume
@@ -474,7 +505,8 @@ class C20(Property):
             P = Emulsion(list(E)[::-1])
             a, b = E.get_size_statistics(), P.get_size_statistics()
             for k in a:
-                if not (close(float(a[k]), float(b[k]))):
+                tol_k = 1e-9 * max(float(vols.max()), float(radii.max()), 1e-290) if k.endswith("_std") else 0.0
+                if not (close(float(a[k]), float(b[k])) or abs(float(a[k]) - float(b[k])) <= tol_k):
                     fail("order-dependence:size-statistics", f"{k}: {a[k]} vs {b[k]} after reversing the members")
             if not close(float(E.total_droplet_volume), float(P.total_droplet_volume)):
                 fail("order-dependence:total-volume", "total volume changes with the member order")
@@ -708,7 +740,7 @@ class C20(Property):
             if all(e[0] != "PerturbedDroplet2D" or True for e in Me):
                 vols = TR.get_volumes()
                 expv = np.array([vol_of(e) for e in Me])
-                if not np.allclose(vols, expv, rtol=1e-12, atol=0):
+                if not np.allclose(vols, expv, rtol=1e-12, atol=1e-290):
                     fail("volumes", f"get_volumes() {vols} expected {expv}")
             if len({(e[0], str(e[1])) for e in Me}) == 1:
                 data = TR.data
